@@ -6,6 +6,7 @@ import (
 	"math/rand/v2"
 	"net/netip"
 	"slices"
+	"strconv"
 	"strings"
 
 	"github.com/AdguardTeam/golibs/errors"
@@ -353,6 +354,21 @@ func genHostsLine(rng *rand.Rand) string {
 	toks := []string{genHostAddr(rng)}
 	for i := 0; i < nn; i++ {
 		toks = append(toks, genHostName(rng))
+	}
+	if rng.IntN(25) == 0 {
+		// many valid names, then (two times out of three) an invalid one and more names behind it
+		k := pick(rng, 7, 8, 9, 10, 15, 16, 17, 31, 32, 33, 64)
+		if v, ok := dictInt(rng, 2, 200); ok && rng.IntN(3) == 0 {
+			k = int(v) + pick(rng, 0, 1)
+		}
+		toks = toks[:1]
+		for i := 0; i < k; i++ {
+			toks = append(toks, "h"+strconv.Itoa(i)+pick(rng, ".example", "", ".Example.ORG"))
+		}
+		if rng.IntN(3) > 0 {
+			toks = append(toks, pick(rng, "-bad.example", "bad..name", "a_b.c-", "1.2.3", "x.\xff", strings.Repeat("l", 64)+".x"), "after1", "after2.example")
+		}
+		nn = len(toks) - 1
 	}
 	if nn > 0 && rng.IntN(15) == 0 {
 		// a name spelled exactly like the line's own address ("0.0.0.0 0.0.0.0 blocked.example"),
